@@ -778,17 +778,38 @@ func jsonQueries(c *core.Ctx) map[string][]jsonQuery {
 									fname = kv2.Key.(*ast.Ident).Name
 									val = kv2.Value
 								}
-								lst, ok := ast.Unparen(val).(*ast.CompositeLit)
-								if !ok {
-									core.Bail("query field is not a literal")
-								}
 								var items [][]byte
-								for _, it := range lst.Elts {
-									bs, ok := constBytesExpr(p.TypesInfo, it)
-									if !ok {
-										core.Bail("query item is not a constant byte string")
+								if ce, isCall := ast.Unparen(val).(*ast.CallExpr); isCall {
+									// strings-to-byte-slices conversion helper applied to constant strings
+									id, isId := ce.Fun.(*ast.Ident)
+									var h *ssa.Function
+									if isId {
+										if fo, ok := p.TypesInfo.Uses[id].(*types.Func); ok {
+											h = c.Prog.FuncValue(fo)
+										}
 									}
-									items = append(items, bs)
+									if h == nil || !isStringsToBytes(h) || ce.Ellipsis.IsValid() {
+										core.Bail("query field is not a literal")
+									}
+									for _, a := range ce.Args {
+										tv := p.TypesInfo.Types[a]
+										if tv.Value == nil || tv.Value.Kind() != constant.String {
+											core.Bail("query item is not a constant byte string")
+										}
+										items = append(items, []byte(constant.StringVal(tv.Value)))
+									}
+								} else {
+									lst, ok := ast.Unparen(val).(*ast.CompositeLit)
+									if !ok {
+										core.Bail("query field is not a literal")
+									}
+									for _, it := range lst.Elts {
+										bs, ok := constBytesExpr(p.TypesInfo, it)
+										if !ok {
+											core.Bail("query item is not a constant byte string")
+										}
+										items = append(items, bs)
+									}
 								}
 								// first [][]byte field = path, second = values
 								idx := 0
@@ -1264,4 +1285,80 @@ func byteParam(f *ssa.Function) *ssa.Parameter {
 		}
 	}
 	return nil
+}
+
+// isStringsToBytes recognises the element-wise conversion helper
+//
+//	func(ss ...string) [][]byte { out := make([][]byte, 0, ..); for _, s := range ss { out = append(out, []byte(s)) }; return out }
+//
+// by its shape: one range loop over the whole parameter, the result starts
+// empty, every iteration appends exactly the converted element, and the
+// accumulated slice is what is returned.
+func isStringsToBytes(h *ssa.Function) bool {
+	if h.Blocks == nil || len(h.Params) != 1 || h.Signature.Results().Len() != 1 {
+		return false
+	}
+	rs := fde.FindRangeOver(h, h.Params[0])
+	if len(rs) != 1 {
+		return false
+	}
+	r := rs[0]
+	ret := retOf(r.Done)
+	if ret == nil || len(core.Returns(h)) != 1 {
+		return false
+	}
+	acc, ok := ret.Results[0].(*ssa.Phi)
+	if !ok || acc.Block() != r.Header {
+		return false
+	}
+	for k, pr := range r.Header.Preds {
+		e := acc.Edges[k]
+		if !r.Header.Dominates(pr) {
+			// initial value: empty
+			switch x := e.(type) {
+			case *ssa.MakeSlice:
+				if !core.IsConstInt(x.Len, 0) {
+					return false
+				}
+			case *ssa.Const:
+				if x.Value != nil {
+					return false
+				}
+			default:
+				return false
+			}
+			continue
+		}
+		ap, ok := e.(*ssa.Call)
+		if !ok || !core.IsBuiltin(&ap.Call, "append") || ap.Call.Args[0] != ssa.Value(acc) || ap.Block() != r.Body {
+			return false
+		}
+		one, ok := ap.Call.Args[1].(*ssa.Slice)
+		if !ok {
+			return false
+		}
+		arr, ok := one.X.(*ssa.Alloc)
+		if !ok {
+			return false
+		}
+		if at, ok := arr.Type().Underlying().(*types.Pointer).Elem().Underlying().(*types.Array); !ok || at.Len() != 1 {
+			return false
+		}
+		okElem := false
+		for _, ref := range *arr.Referrers() {
+			if ia, ok := ref.(*ssa.IndexAddr); ok {
+				for _, r2 := range *ia.Referrers() {
+					if st, ok := r2.(*ssa.Store); ok {
+						cv, ok := st.Val.(*ssa.Convert)
+						okElem = ok && cv.X == ssa.Value(r.Load)
+					}
+				}
+			}
+		}
+		if !okElem {
+			return false
+		}
+	}
+	// the loop body is straight-line back to the header
+	return len(r.Body.Succs) == 1 && r.Body.Succs[0] == r.Header
 }
